@@ -1143,6 +1143,37 @@ pub fn ddl(depth: usize) -> Value {
             }
         }
     }
+    // an INSERT that is refused in its SECOND chunk (NOT NULL violated by row 1500 of 1500: the first 1024-row chunk was already
+    // appended, so the write transaction has taken a RowSet id and created that RowSet's directory) is not acknowledged; what it
+    // leaves on disk must not get in the way later: after a reopen the next INSERT is accepted, and read back over another reopen
+    {
+        let bad: Vec<String> = (0..1499).map(|i| format!("({i})")).chain(std::iter::once("(NULL)".to_string())).collect();
+        let sqls: Vec<String> = vec![
+            "create table nn(v int not null)".into(),
+            format!("insert into nn values {}", bad.join(",")),
+            "select count(*) from nn".into(),
+            "insert into nn values (7)".into(),
+            "select v from nn".into(),
+            "select v from nn".into(),
+            "insert into nn values (8)".into(),
+            "select count(*) from nn".into(),
+        ];
+        let reopen = vec![3usize, 5];
+        let e = Engine::Disk { block: 4096, rowset: 1 << 24 };
+        tried += 8;
+        let short: Vec<String> = sqls.iter().map(|q| if q.len() > 200 { format!("{} ... ({} characters)", &q[..120], q.len()) } else { q.clone() }).collect();
+        let outs = match run(e, &sqls, &reopen) { Ok(o) => o, Err(err) => return found_raw(tried, e, &short, &reopen, sqls.len() - 1, "the session (refused two-chunk INSERT, two reopen cycles) to run".into(), err) };
+        if outs[1].is_err() {
+            let want: [(usize, Vec<Vec<String>>); 4] = [(2, vec![vec!["0".into()]]), (4, vec![vec!["7".into()]]), (5, vec![vec!["7".into()]]), (7, vec![vec!["2".into()]])];
+            for i in [3usize, 6] { if let Err(err) = &outs[i] { return found_raw(tried, e, &short, &reopen, i, "the INSERT to be accepted (the earlier refused INSERT changed nothing)".into(), err.clone()); } }
+            for (i, w) in want.iter() {
+                match &outs[*i] {
+                    Ok(got) if got == w => {}
+                    other => return found_raw(tried, e, &short, &reopen, *i, format!("{w:?}"), format!("{other:?}")),
+                }
+            }
+        }
+    }
     // one DELETE that removes thousands of rows of one RowSet (a delete-vector file of many KiB), one long VARCHAR value: both
     // have to survive two reopen cycles unchanged
     {
